@@ -163,14 +163,14 @@ End Assoc.
 
 (** * The error monad of the model: Python exceptions and fuel *)
 
-Inductive exn :=
+Inductive pyexn :=
 | TypeError | AttributeError | KeyError | IndexError | ValueError
 | RuntimeError | RecursionError | DocumentError | SchemaError | UserError
 | SchemaRuleTypeError.
 
 Inductive res (A : Type) :=
 | Ok (a : A)
-| Raise (e : exn) (site : string)
+| Raise (e : pyexn) (site : string)
 | OutOfFuel.
 Arguments Ok {A} a.
 Arguments Raise {A} e site.
@@ -189,7 +189,7 @@ Notation "'do' x <- r ; f" := (bind r (fun x => f))
 Definition is_ok {A} (r : res A) : bool :=
   match r with Ok _ => true | _ => false end.
 
-Definition exn_eqb (a b : exn) : bool :=
+Definition pyexn_eqb (a b : pyexn) : bool :=
   match a, b with
   | TypeError, TypeError | AttributeError, AttributeError | KeyError, KeyError
   | IndexError, IndexError | ValueError, ValueError | RuntimeError, RuntimeError
